@@ -5,12 +5,20 @@
    only the append rule (index = length = 0) can store into it; any other index raises SetError.  C09_levels_that_exist_are_reused: when the parent path resolves,
    cascade behaves exactly like the plain assignment (no container is created).
    C09_leaf_frame: every single assignment of the cascade changes nothing outside the one container it writes.
-   UNDISCHARGED: the global statement (on SetError no pre-existing node has been altered, moved or removed: the
-   old document embeds in the new one; on success get(p) is v) is not proved as one theorem; it is the direct
-   oracle `embeds` of this check plus the correspondence on cascading histories. *)
+   C09_cascade_is_the_specification: on every path of keys and indices, for every budget, set_match with
+   cascade=True (the model of the library's function: traverser searches, mutation by object identity, the
+   deepest default allocated first) computes `cset` (SpecSet.v: top-down, reuse what exists, create the empty
+   container the next step needs, store at the end, stop with SetError at a level of the wrong type or an index
+   that can be neither assigned nor appended); the only other outcome is a budget exception of a search (F1).
+   About `cset`, hence about the model: C09_value_is_found_afterwards (lookup p = v; C09_get_after_set: get_match
+   finds it), C09_levels_that_exist_are_reused_everywhere (when p resolves nothing is created: the node is
+   replaced in place), C09_missing_location_only_additions and C09_failure_alters_nothing (the old document embeds in
+   the new one: `grows`), C09_created_container_single_entry.
+   (get(p, doc, default=v, store_default=True) reaches the same set_match; that glue is compared by the
+   correspondence.) *)
 From Coq Require Import List ZArith String Bool PArith.
-From TP Require Import Json PyPrim Machine Api Mutate.
-From TP.proofs Require Import MutateProofs.
+From TP Require Import Json PyPrim Machine Api Mutate SpecSet.
+From TP.proofs Require Import RefineBase MutateProofs CsetLemmas CascadeRefine.
 Import ListNotations.
 
 Theorem C09_created_kind : forall k z i,
@@ -47,3 +55,68 @@ Theorem C09_leaf_failure_unchanged : forall doc pm v x e doc',
     leaf_set doc pm v x = (Exn e, doc') -> doc' = doc.
 Proof. exact leaf_set_failure_unchanged. Qed.
 Print Assumptions C09_leaf_failure_unchanged.
+
+Theorem C09_cascade_is_the_specification :
+  forall (B H : positive) (depth fuel : nat) d0 doc (p : list (vertex hp)) x tr nl r doc' nl' es,
+    kipath p = true -> (List.length p < fuel)%nat -> fresh doc nl ->
+    set_match B H depth fuel (SrcDoc d0) doc p x true tr nl = (r, doc', nl', es) ->
+    match r with
+    | Ok m => cset doc p x nl = (true, doc') /\ tdata m = x
+    | Exn e => (cset doc p x nl = (false, doc') /\ e = ESet) \/ (budget_exn e = true /\ grows doc doc')
+    end.
+Proof. exact set_match_cset. Qed.
+Print Assumptions C09_cascade_is_the_specification.
+
+Theorem C09_value_is_found_afterwards : forall p d x nl d',
+    cset d p x nl = (true, d') -> lookup d' p = Some x.
+Proof. exact cset_success_lookup. Qed.
+Print Assumptions C09_value_is_found_afterwards.
+
+Theorem C09_get_after_set :
+  forall (B H : positive) (depth fuel : nat) d0 doc (p : list (vertex hp)) x tr tr' nl m doc' nl' es,
+    kipath p = true -> (List.length p < fuel)%nat -> fresh doc nl ->
+    set_match B H depth fuel (SrcDoc d0) doc p x true tr nl = (Ok m, doc', nl', es) ->
+    let r := fst (jget_match B H depth (SrcDoc doc') p true tr') in
+    (exists pm, r = Ok (Some pm) /\ tdata pm = x) \/ (exists e, r = Exn e /\ budget_exn e = true).
+Proof. exact set_match_then_get. Qed.
+Print Assumptions C09_get_after_set.
+
+Theorem C09_levels_that_exist_are_reused_everywhere : forall p d x nl old,
+    p <> [] -> lookup d p = Some old -> cset d p x nl = (true, put_at d p x).
+Proof. exact cset_exists. Qed.
+Print Assumptions C09_levels_that_exist_are_reused_everywhere.
+
+Theorem C09_missing_location_only_additions : forall p d x nl d',
+    lookup d p = None -> cset d p x nl = (true, d') -> grows d d'.
+Proof. exact cset_ok_missing_grows. Qed.
+Print Assumptions C09_missing_location_only_additions.
+
+Theorem C09_failure_alters_nothing :
+  forall (B H : positive) (depth fuel : nat) d0 doc (p : list (vertex hp)) x tr nl e doc' nl' es,
+    kipath p = true -> (List.length p < fuel)%nat -> fresh doc nl ->
+    set_match B H depth fuel (SrcDoc d0) doc p x true tr nl = (Exn e, doc', nl', es) -> grows doc doc'.
+Proof. exact set_match_failure_grows. Qed.
+Print Assumptions C09_failure_alters_nothing.
+
+Theorem C09_created_container_single_entry : forall d v v' t x nl d',
+    child_at v d = None -> cset d (v :: v' :: t) x nl = (true, d') ->
+    exists y', child_at v d' = Some y' /\ n_members y' = 1%nat.
+Proof. exact cset_created_single. Qed.
+Print Assumptions C09_created_container_single_entry.
+
+(* non-vacuity: {"a": {"b": 5}, "l": [1, []]} is fresh below 50; l[2][0][1] creates two lists and then fails
+   (index 1 of a new list can be neither assigned nor appended): the two lists stay, everything else is as before *)
+Example C09_example :
+  let d := JDict 1 [("a"%string, JDict 2 [("b"%string, JInt 5)]); ("l"%string, JList 3 [JInt 1; JList 4 []])] in
+  fresh d 50 /\
+  cset d [VKey "l"%string; VIdx 2; VIdx 0; VIdx 1] (JInt 9) 50 =
+    (false, JDict 1 [("a"%string, JDict 2 [("b"%string, JInt 5)]);
+                     ("l"%string, JList 3 [JInt 1; JList 4 []; JList 51 [JList 50 []]])]) /\
+  cset d [VKey "a"%string; VKey "c"%string; VIdx 0] (JInt 9) 50 =
+    (true, JDict 1 [("a"%string, JDict 2 [("b"%string, JInt 5); ("c"%string, JList 50 [JInt 9])]);
+                    ("l"%string, JList 3 [JInt 1; JList 4 []])]).
+Proof.
+  split; [|split; reflexivity]. split.
+  - simpl. repeat constructor; simpl; intuition discriminate.
+  - simpl. intros i Hi. repeat (destruct Hi as [<-|Hi]; [repeat constructor|]). contradiction.
+Qed.
